@@ -657,6 +657,11 @@ class Grid(object):
 
         xycoords = np.ascontiguousarray(np.atleast_2d(xycoords),
                                         dtype=np.float64)
+        if xycoords.ndim != 2 or xycoords.shape[1] != 2:
+            errmess = "Expected xycoords as a [n, 2] array, "\
+                      + f"got shape {xycoords.shape}."
+            raise ValueError(errmess)
+
         idxcell = np.zeros(len(xycoords)).astype(np.int64)
 
         ierr = c_hydrodiy_gis.coord2cell(nrows, ncols, xll, yll,
